@@ -163,7 +163,7 @@ def run(pid, tier):
         return blocks
     singles = [warn_blocks(([x for x in r["runs"] if x["kind"] == "R"] or [{"out": b""}])[0]["out"] or b"").get(b"bad.rs.html") for r in build_lib.run_scenarios(fscen)] if pick else []
     for rep in range(2 if tier == "quick" else 6):
-        names = rng.sample([a + b_ for a in "abcdkmqxyzABZ_" for b_ in ["", "0", "7", "_x", "zz"]], 2 * len(pick) + 4)
+        names = rng.sample(sorted(set(a + b_ + c_ for a in "abcdkmqxyzABZ_" for b_ in ["", "0", "7", "_x", "zz"] for c_ in ["", "q", "9", "_"])), 2 * len(pick) + 4)
         rn, gn = names[:len(pick)], names[len(pick):]
         mixed = [('W', 't/%s.rs.html' % n_, s) for n_, (s, _) in zip(rn, pick)] + [('W', 't/%s.rs.html' % n_, '@()\nG%d' % k) for k, n_ in enumerate(gn)]
         rng.shuffle(mixed)
